@@ -38,7 +38,8 @@ type PropConfig struct {
 	ReceiverFrameAccessors map[string]string `json:"receiver_frame_accessors"`
 	// regexps on short keys: handlers whose events must take their addresses from the handler's own connection
 	EventAddress []string       `json:"event_address"`
-	PathAxioms   map[string]int `json:"path_axioms"` // tier -> maximum number of path components
+	SingleSender []SingleSender `json:"single_sender"` // channels (struct fields) that are sent on in the listed functions only
+	PathAxioms   map[string]int `json:"path_axioms"`   // tier -> maximum number of path components
 	// returns that are unreachable under the contracts' assumptions, each reviewed and explained; any
 	// other unreachable return is reported as a vacuity violation
 	ExpectedDead map[string]string `json:"expected_dead"`
@@ -263,6 +264,11 @@ func cmdCheck(args []string) {
 			}
 		}
 		cfg.Assumes = append(cfg.Assumes, fmt.Sprintf("receiver-frame rule (back end: go/ssa, structural): %d handlers decided: no store, map update or delete whose target is reached from the receiver by field selection, indexing and loads, in the handler, the closures that capture the receiver and the module functions it hands the receiver to (three levels); accessors exempt because verified against their own contract: %s; not covered: writes made by functions that receive a pointer loaded from the receiver (not the receiver itself), and by interface or third-party methods", cnt, strings.Join(accNames, ", ")))
+	}
+	if len(cfg.SingleSender) > 0 {
+		ss := L.singleSenderRule(cfg.SingleSender)
+		all = append(all, ss...)
+		cfg.Assumes = append(cfg.Assumes, fmt.Sprintf("single-sender rule (back end: go/ssa, structural): %d channel fields are sent on only in the functions whose contracts count those sends", len(cfg.SingleSender)))
 	}
 	if cfg.GoSweep != nil {
 		verified := map[string]bool{}
